@@ -2,7 +2,7 @@
 use crate::common::*;
 use crate::domains::*;
 use crate::refsha;
-use crate::tree::{Builder, ENCS, SHARINGS, T, TreeSpace, atom, cons, int_atom};
+use crate::tree::{Builder, ENCS4, SHARINGS, T, TreeSpace, atom, cons, int_atom};
 use clvmr::allocator::{Allocator, NodePtr};
 use clvmr::chia_dialect::ClvmFlags;
 use clvmr::serde::{ObjectCache, intern_tree, parse_triples, tree_hash_from_stream, treehash};
@@ -76,7 +76,7 @@ pub fn run(ctx: &Ctx) -> Report {
             A.with(|a| {
                 let a = &mut a.borrow_mut();
                 for sh in SHARINGS {
-                    for enc in ENCS {
+                    for enc in ENCS4 {
                         // big spaces: all encodings only for every tree of the int space (precomputed table is keyed on inline ints)
                         if si == 1 && sh != crate::tree::Sharing::Fresh && ts.leaves_of(i) > 2 {
                             continue;
